@@ -53,6 +53,7 @@ def run_operator_case(case, prop, configs, weakly, want, nq=8, cinf_bounds=(5, 5
         qs[0] = gen.D4_QUERY
     via = 'parser' if rng.random() < 0.5 else 'api'
     style = rng.choice(['full', 'min'])
+    parallel = rng.random() < 0.06       # the definition does not depend on how the batch is evaluated
     keys = None
     if rng.random() < 0.25:      # bases whose keys are not 1..n (e.g. after deleting a conditional)
         keys = sorted(rng.sample(range(0, 2 * len(conds) + 3), len(conds)))
@@ -78,6 +79,8 @@ def run_operator_case(case, prop, configs, weakly, want, nq=8, cinf_bounds=(5, 5
     csys = cref.CSys(base) if any(c[0] == 'c-inference' for c in configs) else None
     bump('layers', str(len(setup.part)))
     bump('family', fam)
+    if parallel:
+        bump('cases_evaluated_in_parallel')
     if weakly:
         bump('inf_layer_size', str(len(setup.inf)))
         if not setup.part:
@@ -95,7 +98,7 @@ def run_operator_case(case, prop, configs, weakly, want, nq=8, cinf_bounds=(5, 5
         queries = impl.mk_queries(qs)
         got = None
         try:
-            df = impl.ask(bb, system, p, queries, weakly=weakly)
+            df = impl.ask(bb, system, p, queries, weakly=weakly, **({'multi_inference': True} if parallel else {}))
             got = impl.results(df)
             if len(got) != len(qs):
                 raise RuntimeError('row count %d != %d' % (len(got), len(qs)))
